@@ -91,7 +91,8 @@ async def scenario(env: Any, case: Dict[str, Any]) -> Dict[str, Any]:
     await env.settle0()
     conns: List[Dict[str, Any]] = []
     for phase in case["conns"]:
-        c = await env.connect(read=phase != "unread")
+        # (the server listens on two sockets: connections come in over both)
+        c = await env.connect(read=phase != "unread", which=len(conns) % 2)
         info: Dict[str, Any] = {"phase": phase, "c": c}
         conns.append(info)
         if phase == "idle":
@@ -144,7 +145,7 @@ async def scenario(env: Any, case: Dict[str, Any]) -> Dict[str, Any]:
         extra.send(req("/quick"))
         out["t_trigger"] = env.now()
     await env.settle0()
-    late = await env.connect()
+    late = await env.connect(which=case.get("sched", 0) % 2)
     out["late"] = late
     if not late.refused:
         late.send(req("/quick"))
@@ -208,6 +209,10 @@ def judge(case: Dict[str, Any], res: Any) -> None:
     if res.serve_returned_at > bound + eps:
         raise Violation("serve_returned_late", f"returned at t={res.serve_returned_at}, bound "
                         f"{bound}", **tag)
+    for info in val["conns"]:
+        if info["c"].refused:
+            raise Violation("connection_refused_while_serving", f"a connection opened before "
+                            f"the trigger (phase {info['phase']}) was refused", **tag)
     late = val["late"]
     if not late.refused:
         resps, _, _ = parse_responses(late.received(), ["GET"], late.server_gone)
